@@ -102,6 +102,15 @@ def gen_signature(rng: Any) -> dict[str, Any]:
         spelling = rng.choice(SPELLINGS)
         inj.append({"arg": f"r{i}", "type": t, "name": name, "spelling": spelling, "as_string": rng.random() < 0.4,
                     "kwonly": rng.random() < 0.5, "state": rng.choice(STATES), "explicit_default_name": rng.random() < 0.5})
+    # a later optional parameter whose resource only comes into being as a side effect of generating an earlier one (a
+    # connection factory that also publishes its cache): lookups happen in the order of the parameters
+    order = [i for i in inj if not i["kwonly"]] + [i for i in inj if i["kwonly"]]
+    if len(order) >= 2 and rng.random() < 0.2:
+        a, b = order[0], order[-1]
+        a["state"] = rng.choice(["sync_factory", "async_factory"])
+        b["state"] = "side_effect_of:" + a["arg"]
+        if b["spelling"] == "T":
+            b["spelling"] = "Optional[T]"
     local_classes = rng.random() < 0.3
     if not local_classes and rng.random() < 0.2:
         # one annotation is a forward reference to a module-level name that is only defined after the function was called once
@@ -213,6 +222,17 @@ async def scenario(case: dict[str, Any], out: dict[str, Any]) -> None:
     # resolution follows the order of the parameters in the signature
     ordered_inj = [i for i in sig["inj"] if not i["kwonly"]] + [i for i in sig["inj"] if i["kwonly"]]
 
+    def side_effects_of(arg: str) -> None:
+        from asphalt.core import current_context
+
+        for j in sig["inj"]:
+            if j["state"] == "side_effect_of:" + arg:
+                cur = current_context()
+                Tj = TYPES[j["type"]]
+                if cur.get_resource_nowait(Tj, j["name"], optional=True) is None:
+                    cur.add_resource(Tj(), j["name"], types=[Tj])
+                    inc("resources_published_as_a_side_effect_of_a_generation")
+
     def setup(ctx: Any, inherited: bool) -> None:
         """register what belongs into ctx: the inherited states go into the parent (before the child is created)"""
         for i in sig["inj"]:
@@ -224,8 +244,9 @@ async def scenario(case: dict[str, Any], out: dict[str, Any]) -> None:
             if state in ("static", "inherited_static"):
                 where.add_resource(T(), name, types=[T])
             elif state in ("sync_factory", "inherited_factory"):
-                def sf(key: Any = key) -> Any:
+                def sf(key: Any = key, arg: str = i["arg"]) -> Any:
                     factory_calls[key] = factory_calls.get(key, 0) + 1
+                    side_effects_of(arg)
                     return Produced(key, factory_calls[key])
 
                 where.add_resource_factory(sf, name, types=[T])
@@ -251,9 +272,10 @@ async def scenario(case: dict[str, Any], out: dict[str, Any]) -> None:
 
                 where.add_resource_factory(lambda key=key: Fut(key), name, types=[T])
             elif state == "async_factory":
-                async def af(key: Any = key) -> Any:
+                async def af(key: Any = key, arg: str = i["arg"]) -> Any:
                     factory_calls[key] = factory_calls.get(key, 0) + 1
                     await anyio.sleep(0)
+                    side_effects_of(arg)
                     return Produced(key, factory_calls[key])
 
                 where.add_resource_factory(af, name, types=[T])
